@@ -182,7 +182,14 @@ def gen_program(rng):
 
 
 def run_ego(ck, ego, path, mode, opt):
-    return vf.sh([ego, "run", "--types", mode, "-o", str(opt), path], cwd=ck.work, env=vf.ego_env(ck.work), timeout=60)
+    for attempt in range(3):
+        try:
+            return vf.sh([ego, "run", "--types", mode, "-o", str(opt), path], cwd=ck.work, env=vf.ego_env(ck.work), timeout=120)
+        except OSError:                     # binary being replaced by a concurrent build of the same tree
+            import time
+            time.sleep(2)
+            vf.build_ego()
+    return 1, "Error: could not start ego"
 
 
 def run(ck):
@@ -259,7 +266,7 @@ def run(ck):
     ck.cov["evaluations"] = len(cases)
     ck.cov["input_distribution"]["harness_cases"] = len(cases)
     ck.cov["input_distribution"]["strict_accepted_with_conversion"] = len(nontriv)
-    for key in list(nontriv)[:3]:
+    for key in sorted(nontriv)[:3]:
         d = bykey[key]
         ck.sample({"case": d["strict"]["line"], "strict": obs.get(d["strict"]["id"]), "relaxed": obs.get(d["relaxed"]["id"])})
 
@@ -273,30 +280,36 @@ def run(ck):
             progs = [gen_program(ck.rng) for _ in range(40 if quick else 400)] if replay is None else [replay["program"]]
             opts = (0, 2) if quick else (0, 1, 2, 3)
             nrun = 0
+            from concurrent.futures import ThreadPoolExecutor
+            paths = []
             for pi, text in enumerate(progs):
                 p = os.path.join(ck.work, "p%d.ego" % pi)
                 with open(p, "w") as f:
                     f.write(text)
-                was_clean = False
-                for o in opts:
-                    rc_s, out_s = run_ego(ck, ego, p, "strict", o)
-                    nrun += 1
-                    if rc_s != 0 or "Error:" in out_s:
-                        continue
-                    was_clean = True
-                    rc_r, out_r = run_ego(ck, ego, p, "relaxed", o)
-                    nrun += 1
-                    if rc_r != 0 or out_r != out_s:
-                        a, b = out_s.splitlines(), out_r.splitlines()
-                        d = next((i for i in range(max(len(a), len(b))) if i >= len(a) or i >= len(b) or a[i] != b[i]), 0)
-                        ck.violation("program-differs", "a program that runs cleanly under --types strict -o %d prints something else under "
-                                     "--types relaxed: line %d strict %r relaxed %r" % (o, d + 1, a[d:d + 1], b[d:d + 1]),
-                                     replay={"program": text, "opt": o})
-                        found.add("prog")
-                        break
-                clean += 1 if was_clean else 0
-                if was_clean:
-                    nontriv.add("prog%d" % pi)
+                paths.append(p)
+            jobs = [(pi, o) for pi in range(len(progs)) for o in opts]
+            if paths:
+                run_ego(ck, ego, paths[0], "strict", 0)        # warm-up: creates the private profile before the parallel runs
+            with ThreadPoolExecutor(max_workers=6) as ex:
+                strict = list(ex.map(lambda j: run_ego(ck, ego, paths[j[0]], "strict", j[1]), jobs))
+                cleanjobs = [j for j, (rc_s, out_s) in zip(jobs, strict) if rc_s == 0 and "Error:" not in out_s]
+                relaxed = list(ex.map(lambda j: run_ego(ck, ego, paths[j[0]], "relaxed", j[1]), cleanjobs))
+            nrun = len(jobs) + len(cleanjobs)
+            sres = dict(zip(jobs, strict))
+            reported = set()
+            for j, (rc_r, out_r) in zip(cleanjobs, relaxed):
+                pi, o = j
+                out_s = sres[j][1]
+                nontriv.add("prog%d" % pi)
+                if (rc_r != 0 or out_r != out_s) and pi not in reported:
+                    reported.add(pi)
+                    a, b = out_s.splitlines(), out_r.splitlines()
+                    d = next((i for i in range(max(len(a), len(b))) if i >= len(a) or i >= len(b) or a[i] != b[i]), 0)
+                    ck.violation("program-differs", "a program that runs cleanly under --types strict -o %d prints something else under "
+                                 "--types relaxed: line %d strict %r relaxed %r" % (o, d + 1, a[d:d + 1], b[d:d + 1]),
+                                 replay={"program": progs[pi], "opt": o})
+                    found.add("prog")
+            clean = len({j[0] for j in cleanjobs})
             ck.cov["evaluations"] += nrun
             ck.cov["input_distribution"]["programs_generated"] = len(progs)
             ck.cov["input_distribution"]["programs_strict_clean"] = clean
